@@ -218,7 +218,7 @@ func checkC16(w *Workload) *Outcome {
 	})
 }
 
-var c16Fixtures = []string{"flat24", "nest", "tiny", "deep", "samename", "rep3"}
+var c16Fixtures = []string{"flat24", "nest", "tiny", "deep", "samename", "rep3", "dupleaf"}
 
 func TestC16(t *testing.T) {
 	cfg := wlCfg{fixtures: fixturesFromEnv(c16Fixtures), maxRecs: envInt("VERIF_MAXRECS", 80), gen: vt.DefaultGen, bigPct: 5}
